@@ -40,6 +40,11 @@ pub struct CoverCase {
     pub spec: StructSpec,
     #[serde(default)]
     pub detours: Vec<Detour>,
+    /// number of extra tracers appended to the master key through its serialized form before
+    /// anything else happens (the API only creates tracing level 1; higher levels are reachable by
+    /// deserialization)
+    #[serde(default)]
+    pub extra_tracers: u8,
     pub users: Vec<PolicySpec>,
     pub encs: Vec<EncRecipe>,
 }
@@ -63,7 +68,9 @@ fn strategy(thorough: bool) -> impl Strategy<Value = CoverCase> {
         proptest::collection::vec(policy_spec(3, 3, 2), 2..=5),
         proptest::collection::vec(enc, 2..=6),
     )
-        .prop_map(|(spec, detours, users, encs)| CoverCase { spec, detours, users, encs })
+        .prop_flat_map(|(spec, detours, users, encs)| {
+            prop_oneof![5 => Just(0u8), 1 => Just(1u8), 1 => Just(2u8)].prop_map(move |extra_tracers| CoverCase { spec: spec.clone(), detours: detours.clone(), extra_tracers, users: users.clone(), encs: encs.clone() })
+        })
 }
 
 fn derive(spec: &StructSpec, user_dnf: &[Conj], clause: u16, variant: u8, pos: u16, extra: u16) -> Conj {
@@ -187,6 +194,16 @@ fn c02_reasons(p: &Pair) -> Vec<&'static str> {
 pub fn check_case(focus: &str, case: &CoverCase, col: &Collector) -> CheckResult {
     let cc = Covercrypt::default();
     let (mut msk, _) = cc.setup().map_err(|e| Fail::new("setup-failed", short_err(&e)))?;
+    if case.extra_tracers > 0 {
+        let b = ser(&msk)?;
+        let mut wm = crate::wire::WMsk::decode(&b).map_err(|e| Fail::new("codec-cannot-decode-msk", e))?;
+        for k in 0..case.extra_tracers as usize {
+            let t = wm.tracers[k % wm.tracers.len()].clone();
+            wm.tracers.push(t);
+        }
+        msk = de(&wm.encode()).map_err(|e| Fail::new("higher-tracing-level-msk-rejected", e))?;
+        col.class(&format!("tracing-level:{}", 1 + case.extra_tracers));
+    }
     case.spec.build(&mut msk.access_structure).map_err(|e| Fail::new("structure-build-failed", format!("{}: {}", case.spec.shape(), short_err(&e))))?;
     let mut mpk = cc.update_msk(&mut msk).map_err(|e| Fail::new("update-failed", short_err(&e)))?;
     // detours: the name-level structure is edited in parallel
@@ -568,6 +585,7 @@ pub fn run(ctx: &Ctx, col: &Collector) -> Meta {
         let big = CoverCase {
             spec: big_spec(),
             detours: vec![Detour::Del { dim: 0, attr: 30000 }, Detour::RoundTrip, Detour::Add { dim: 0, after: Some(10000), hybrid: true }],
+            extra_tracers: 2,
             users: vec![
                 ps(vec![vec![(0, vec![30000])]], 2),
                 ps(vec![vec![(0, vec![12000]), (20000, vec![0]), (60000, vec![40000])]], 3),
@@ -600,7 +618,7 @@ pub fn run(ctx: &Ctx, col: &Collector) -> Meta {
         }
     }
     let rule = if focus == "C01" {
-        "random structures (1-4 dimensions, hierarchies built by out-of-order `after` insertions, arbitrary hints, non-ASCII / inner-space names) with 2-5 user policies and 2-6 encryption policies (free, or derived from a user clause: same / lower attribute / extra unmentioned dimension / dropped dimension / one step outside), policies passed as ASTs or through the parser with random spacing and parentheses; half of the structures then go through 1-5 edits (delete / add with `after` / rename / master-key round-trip / update) before any key exists, the name-level structure being edited in parallel; plus exhaustive tables on three fixed structures (all user DNFs with <= 2 clauses x all single-conjunction encryption policies). Oracle: name-level cover predicate. Non-trivial = authorized pair whose authorization uses a lower hierarchical attribute, an unmentioned dimension, a multi-clause user policy, a multi-target encapsulation, a hybridized target or >= 3 dimensions; distinct by (structure shape, user DNF, encryption DNF)"
+        "random structures (1-4 dimensions, hierarchies built by out-of-order `after` insertions, arbitrary hints, non-ASCII / inner-space names) with 2-5 user policies and 2-6 encryption policies (free, or derived from a user clause: same / lower attribute / extra unmentioned dimension / dropped dimension / one step outside), policies passed as ASTs or through the parser with random spacing and parentheses; half of the structures then go through 1-5 edits (delete / add with `after` / rename / master-key round-trip / update) before any key exists, the name-level structure being edited in parallel; 2 cases in 7 use a master key with tracing level 2 or 3 (tracers appended through the serialized form); plus exhaustive tables on three fixed structures (all user DNFs with <= 2 clauses x all single-conjunction encryption policies). Oracle: name-level cover predicate. Non-trivial = authorized pair whose authorization uses a lower hierarchical attribute, an unmentioned dimension, a multi-clause user policy, a multi-target encapsulation, a hybridized target or >= 3 dimensions; distinct by (structure shape, user DNF, encryption DNF)"
     } else {
         "same cases as C01 (one run yields both verdict kinds; this check reports the unauthorized half). Oracle: name-level cover predicate says no conjunction is covered => decaps must return None (Some(x) for any x is a violation). Non-trivial = unauthorized pair at distance one from authorization: exactly one attribute of a conjunction fails against some user clause (next higher level in a hierarchy, sibling in an anarchy), possibly sharing all other dimensions; distinct by (structure shape, user DNF, encryption DNF)"
     };
